@@ -377,4 +377,61 @@ theorem read_writeText_of_header (R : Render) (c : Chart)
   · rw [hcs]; exact objs.1
   · rw [hcs]; exact objs.2
 
+/-- the header part of the whole-text theorem, discharged: `HeaderOk` follows from `MetaOk` (integers where the
+reader uses `int()`, `repr` read-back for the non-integral numbers, comma-free sample file names) and from "no token of
+the written header renders a line break" -/
+theorem headerOk_of (R : Render) (c : Chart) (hm : MetaOk R c.md)
+    (hnl : ∀ tl ∈ writeMeta c.md, ∀ t ∈ tl, '\n' ∉ R.tok t) : HeaderOk R c := by
+  have hS : headS R c = hdrS R c.md ++ (c.md.samples.map writeSample).map R.line := headS_eq R c.md
+  have hsl : ∀ l ∈ (c.md.samples.map writeSample).map R.line, l ≠ hTiming ∧ l ≠ hObjects := by
+    intro l hl
+    simp only [List.map_map, List.mem_map, Function.comp] at hl
+    obtain ⟨s, _, rfl⟩ := hl
+    exact sample_line_not_header R s
+  refine ⟨?_, ?_, ?_, ?_⟩
+  · intro l hl
+    simp only [headLines, List.mem_map] at hl
+    obtain ⟨tl, htl, rfl⟩ := hl
+    exact line_no_nl R tl (hnl tl htl)
+  · rw [hS, List.mem_append, not_or]
+    exact ⟨(hdrS_not_header R c.md).1, fun h => (hsl _ h).1 rfl⟩
+  · rw [hS, List.mem_append, not_or]
+    exact ⟨(hdrS_not_header R c.md).2, fun h => (hsl _ h).2 rfl⟩
+  · rw [hS, List.append_assoc]
+    exact readMeta_header R c.md hm
+
+/-- **`read_file(write_file(c)) = quantize c` — the whole text, header included.**  For every chart — any number of
+hits, holds, tempo points, scroll velocities and sample events, every key count 1..256, every value of every one of
+the 32 metadata attributes (colons, non-ASCII, any number) — the text `"\n".join(write())`, split at line breaks,
+trimmed line by line, cut at the first `[TimingPoints]` / `[HitObjects]`, run through the metadata loop, the line
+classifiers and the five `read_string`s, is exactly `quantize c`: times truncated toward zero (each moving by less than
+1 ms, `qHit_close` / `qHold_close`), text attributes trimmed, everything else identical; and `quantize` is idempotent
+(`q*_idem`), so every later generation equals the first.
+Hypotheses — on the chart: columns inside the key count; hitsound file names without `,` `:` line break or trailing
+blank; non-zero bpm / SV; AudioLeadIn / BeatDivisor / GridSize hold integers; sample file names without comma.
+On the renderer (parameters of the model, DESIGN §5 K3): `repr` of each float that is actually written reads back
+exactly and contains no comma / blank (`ReprOk`, `NumOk`); no token of the header renders a line break. -/
+theorem read_writeText (R : Render) (c : Chart)
+    (hk : 0 < pyTrunc c.md.circleSize) (hk' : pyTrunc c.md.circleSize ≤ 256)
+    (hhits : ∀ h ∈ c.hits, ObjOk2 (pyTrunc c.md.circleSize) (.hit h))
+    (hholds : ∀ h ∈ c.holds, ObjOk2 (pyTrunc c.md.circleSize) (.hold h))
+    (hb : ∀ b ∈ c.bpms, BpmOk2 R b) (hs : ∀ b ∈ c.svs, SvOk2 R b)
+    (hm : MetaOk R c.md) (hnl : ∀ tl ∈ writeMeta c.md, ∀ t ∈ tl, '\n' ∉ R.tok t) :
+    readText (writeText R c) = .ok (quantize R.uni c) :=
+  read_writeText_of_header R c hk hk' hhits hholds hb hs (headerOk_of R c hm hnl)
+
+/-- non-vacuity of `read_writeText`: a 7K chart with a hit, a hold, a tempo point, a scroll velocity, a sample and
+text metadata containing colons satisfies every hypothesis (renderer: integers as integers) -/
+def demoChart : Chart :=
+  { md := { stackLeniency := 1, timelineZoom := 2, sliderMultiplier := 3, circleSize := 7, audioLeadIn := 1000000,
+            title := "a:b: c".toList, tags := ["x".toList, "y:z".toList], audioFileName := "a b.mp3".toList,
+            samples := [{ offset := 25/2, file := "\"clap.wav\"".toList, volume := 70 }] },
+    bpms := [{ offset := 0, bpm := 120, metronome := 4 }], svs := [{ offset := 10, multiplier := 2 }],
+    hits := [{ offset := 7/2, column := 6, file := "hit normal.wav".toList }],
+    holds := [{ offset := -21/2, column := 3, length := 21/4 }] }
+
+example : readText (writeText intRender demoChart) = .ok (quantize id demoChart) :=
+  read_writeText intRender demoChart (by decide +kernel) (by decide +kernel) (by decide +kernel) (by decide +kernel)
+    (by decide +kernel) (by decide +kernel) (by decide +kernel) (by decide +kernel)
+
 end Reamber.Osu
